@@ -18,6 +18,7 @@ PROPS[R22]="C12 C06 C15 C01 C10 C05"; PROPS[R23]="C17 C07 C08 C12 C18 C01 C04 C1
 PROPS[R25]="C19 C20 C10 C01 C04 C02 C11 C14 C05 C03"; PROPS[R26]="C10 C16 C19 C05 C04 C02"; PROPS[R27]="C18 C12 C02"
 PROPS[R28]="C15 C12 C19 C02"; PROPS[R29]="C16 C10 C19"; PROPS[R30]="C17 C06 C11 C02 C19 C01"
 PROPS[R31]="C11 C12 C06 C05 C07 C08 C16 C01 C13"; PROPS[R32]="C03 C02 C05 C10 C01 C14 C20 C04"; PROPS[R33]="C11 C06 C04 C10 C16 C17 C18 C08 C19 C02"
+PROPS[R37]="C05 C04 C10 C01 C03 C02"; PROPS[R38]="C06 C04 C10 C11 C19 C16"; PROPS[R39]="C16 C10 C19 C15"; PROPS[R40]="C07 C08 C09 C01 C17"; PROPS[R41]="C17 C07 C08 C01 C18 C15 C13"; PROPS[R42]="C04 C02 C10 C05 C01 C20 C14 C19"
 PROPS[R34]="C14 C13 C07 C01 C02 C09 C20 C19"; PROPS[R35]="C10 C19 C14 C04 C09 C01 C20"; PROPS[R36]="C20 C19 C02 C03 C10 C13 C14 C01"
 jobs=/tmp/matrix_jobs.$$; : > $jobs
 for d in seeded/C*; do
